@@ -22,10 +22,196 @@ package main
 //                           (ClusterExec `fail redirect` = refused and not delivered elsewhere, d698491)
 
 import (
+	"fmt"
 	"go/ast"
 	"go/token"
+	"path/filepath"
 	"strings"
 )
+
+// c19GuardOrder: Batch.Exec / batch2.Dispatch / batch2.Receive start with two guards, each an if statement
+// of the function's top level that returns: `bat.err != nil` (a Put was refused: report the recorded
+// error) and `… len(bat.batches) == 0` (no node batch: nothing to do, nil). Which one comes first decides
+// what a flush returns whose EVERY command was refused at Put (no node batch AND a recorded error).
+// Read off the statement order, not the text: survives renames, comments, a rewritten condition
+// (`bat == nil || …`), statements in between that do not return.
+func c19GuardOrder(fset *token.FileSet, fn *ast.FuncDecl, what string) bool {
+	errAt, emptyAt := -1, -1
+	for i, st := range fn.Body.List {
+		is, ok := st.(*ast.IfStmt)
+		if !ok || len(is.Body.List) == 0 {
+			continue
+		}
+		if _, ret := is.Body.List[len(is.Body.List)-1].(*ast.ReturnStmt); !ret {
+			continue
+		}
+		c := strings.ReplaceAll(c17Print(fset, is.Cond), " ", "")
+		if errAt < 0 && strings.Contains(c, "!=nil") && (strings.Contains(c, ".err") || (is.Init != nil && c19Contains(fset, is.Init, ".err"))) {
+			errAt = i
+		}
+		if emptyAt < 0 && strings.Contains(c, "len(") && (strings.Contains(c, "batches)==0") || strings.Contains(c, "batches)<1")) {
+			emptyAt = i
+		}
+	}
+	if errAt < 0 || emptyAt < 0 {
+		die("%s: entry guards not found (recorded Put error: %d, no node batch: %d)", what, errAt, emptyAt)
+	}
+	return errAt < emptyAt
+}
+
+// ---- session 5: statement-ORDER / SHAPE constants instead of body texts (survive renames, comments, log lines,
+// extracted locals; they fail only when the shape the model relies on changes)
+
+func c19Cond(fset *token.FileSet, e ast.Node) string {
+	return strings.ReplaceAll(c17Print(fset, e), " ", "")
+}
+
+// c19RangeOver: index of the first top-level `for … range <…what>` statement at or after `from` whose body satisfies pred
+func c19RangeOver(fset *token.FileSet, list []ast.Stmt, from int, what string, pred func(*ast.RangeStmt) bool) int {
+	for i := from; i < len(list); i++ {
+		rs, ok := list[i].(*ast.RangeStmt)
+		if !ok || !strings.HasSuffix(c19Cond(fset, rs.X), what) {
+			continue
+		}
+		if pred == nil || pred(rs) {
+			return i
+		}
+	}
+	return -1
+}
+
+func c19Contains(fset *token.FileSet, n ast.Node, sub string) bool {
+	return strings.Contains(c19Cond(fset, n), sub)
+}
+
+// c19ReturnsNonNilErr: does the block end in a return whose LAST result is not the identifier nil?
+func c19ReturnsNonNilErr(b *ast.BlockStmt) bool {
+	if b == nil || len(b.List) == 0 {
+		return false
+	}
+	r, ok := b.List[len(b.List)-1].(*ast.ReturnStmt)
+	if !ok || len(r.Results) == 0 {
+		return false
+	}
+	id, isId := r.Results[len(r.Results)-1].(*ast.Ident)
+	return !(isId && id.Name == "nil")
+}
+
+// c19ExecShape (Batch.Exec / batch2.Receive): after the guards (1) every node batch is started (`go …` per batch) -
+// Exec only -, (2) a loop over the node batches RECEIVES from each `.done` (Exec returns only when every node batch has
+// ended), and only then (3) a loop over the index returns a node batch's error (first in Put order) and collects the
+// reply, (4) CheckRepliesError of the collected replies is returned when not nil, before (5) the final `return replies, nil`.
+func c19ExecShape(fset *token.FileSet, fn *ast.FuncDecl, starts bool) (waitsAll, reportsBatchErr, checksReplies bool) {
+	l := fn.Body.List
+	from := 0
+	if starts {
+		from = c19RangeOver(fset, l, 0, "batches", func(rs *ast.RangeStmt) bool {
+			for _, st := range rs.Body.List {
+				if _, ok := st.(*ast.GoStmt); ok {
+					return true
+				}
+			}
+			return false
+		})
+		if from < 0 {
+			return
+		}
+	}
+	wait := c19RangeOver(fset, l, from, "batches", func(rs *ast.RangeStmt) bool {
+		return c19Contains(fset, rs.Body, "<-") && c19Contains(fset, rs.Body, ".done") && !c19Contains(fset, rs.Body, "return")
+	})
+	if wait < 0 {
+		return
+	}
+	idx := c19RangeOver(fset, l, wait+1, "index", nil)
+	// nothing between the start loop and the end may return before the wait loop
+	for i := from; i < wait; i++ {
+		if c19Contains(fset, l[i], "return") {
+			return
+		}
+	}
+	waitsAll = idx > wait
+	if idx < 0 {
+		return
+	}
+	for _, st := range l[idx].(*ast.RangeStmt).Body.List {
+		if is, ok := st.(*ast.IfStmt); ok && c19Contains(fset, is.Cond, "!=nil") && c19ReturnsNonNilErr(is.Body) &&
+			(c19Contains(fset, is.Cond, ".err") || (is.Init != nil && c19Contains(fset, is.Init, ".err"))) {
+			reportsBatchErr = true // also `if e := bat.batches[i].err; e != nil { return nil, e }`
+		}
+	}
+	for i := idx + 1; i < len(l); i++ {
+		if is, ok := l[i].(*ast.IfStmt); ok && is.Init != nil && c19Contains(fset, is.Init, "CheckRepliesError(") && c19ReturnsNonNilErr(is.Body) {
+			checksReplies = true
+		}
+	}
+	return
+}
+
+// c19DispatchShape (batch2.Dispatch): the node batches are submitted in order by ONE loop over bat.batches in which the
+// request is recorded on the node batch before Submit and a failing Submit returns its error at once (what was
+// submitted is a prefix: ClusterSender.dispatch), and the function ends in `return nil`.
+func c19DispatchShape(fset *token.FileSet, fn *ast.FuncDecl) bool {
+	l := fn.Body.List
+	i := c19RangeOver(fset, l, 0, "batches", func(rs *ast.RangeStmt) bool { return c19Contains(fset, rs.Body, "Submit(") })
+	if i < 0 {
+		return false
+	}
+	ok := false
+	for _, st := range l[i].(*ast.RangeStmt).Body.List {
+		if is, isIf := st.(*ast.IfStmt); isIf && (c19Contains(fset, is, "Submit(")) && c19ReturnsNonNilErr(is.Body) {
+			ok = true
+		}
+	}
+	return ok && c19RangeOver(fset, l, i+1, "batches", func(rs *ast.RangeStmt) bool { return c19Contains(fset, rs.Body, "Submit(") }) < 0
+}
+
+// c19OnceChecksPutErr (closure sendFuncOnce): the error of a refused Put is kept in a variable X (`if err :=
+// batcher.Put(…); … { X = err }` inside the loop over the queue) and the empty-batcher shortcut `if batcher.Len() == 0 {…}`
+// returns a non-nil error when X != nil BEFORE it can return nil.
+func c19OnceChecksPutErr(fset *token.FileSet, once ast.Node) bool {
+	x := ""
+	ast.Inspect(once, func(n ast.Node) bool {
+		is, ok := n.(*ast.IfStmt)
+		if !ok || is.Init == nil || !c19Contains(fset, is.Init, ".Put(") {
+			return true
+		}
+		as, ok := is.Init.(*ast.AssignStmt)
+		if !ok || len(as.Lhs) != 1 {
+			return true
+		}
+		errName := c19Cond(fset, as.Lhs[0])
+		for _, st := range is.Body.List {
+			if a2, ok := st.(*ast.AssignStmt); ok && len(a2.Lhs) == 1 && len(a2.Rhs) == 1 && c19Cond(fset, a2.Rhs[0]) == errName && x == "" {
+				x = c19Cond(fset, a2.Lhs[0])
+			}
+		}
+		return true
+	})
+	if x == "" {
+		return false
+	}
+	sc := c19IfMentioning(fset, once, "Len()", "== 0")
+	if sc == nil {
+		return false
+	}
+	for _, st := range sc.(*ast.IfStmt).Body.List {
+		if is, ok := st.(*ast.IfStmt); ok && c19Contains(fset, is.Cond, x+"!=nil") && c19ReturnsNonNilErr(is.Body) {
+			return true
+		}
+		if _, ok := st.(*ast.ReturnStmt); ok {
+			return false
+		}
+	}
+	return false
+}
+
+func c19Bool(b bool) string {
+	if b {
+		return "true"
+	}
+	return "false"
+}
 
 func c19Closure(fn *ast.FuncDecl, name string) ast.Node {
 	var found ast.Node
@@ -98,6 +284,55 @@ func genC19() {
 		}
 		facts[m[3]] = c17Print(fs, fn.Body)
 	}
+	// session 5: the order of the entry guards, regenerated into lean/GunYu/Gen/C19Guards.lean
+	{
+		var sb strings.Builder
+		sb.WriteString("-- GENERATED by /verif/harness/extract from /repo — do not edit.\nnamespace GunYu.Gen.C19Guards\n\n")
+		for _, m := range [][4]string{
+			{"pkg/redis/client/cluster/batch.go", "Batch", "Exec", "execErrFirst"},
+			{"pkg/redis/client/cluster/batch_pipe.go", "batch2", "Dispatch", "dispatchErrFirst"},
+			{"pkg/redis/client/cluster/batch_pipe.go", "batch2", "Receive", "receiveErrFirst"},
+		} {
+			fs, ff := parseFile(m[0])
+			fn := c19Method(ff, m[1], m[2])
+			if fn == nil {
+				die("%s.%s not found in %s", m[1], m[2], m[0])
+			}
+			v := c19GuardOrder(fs, fn, m[1]+"."+m[2])
+			fmt.Fprintf(&sb, "/-- %s (*%s).%s: the guard `bat.err != nil` (a Put was refused) is tested BEFORE the guard\n    `len(bat.batches) == 0` (no node batch) -/\ndef %s : Bool := %s\n\n", m[0], m[1], m[2], m[3], c19Bool(v))
+			facts["c19_"+m[3]] = c19Bool(v)
+		}
+		emit := func(name, doc string, v bool) {
+			fmt.Fprintf(&sb, "/-- %s -/\ndef %s : Bool := %s\n\n", doc, name, c19Bool(v))
+			facts["c19_"+name] = c19Bool(v)
+		}
+		{
+			fs, ff := parseFile("pkg/redis/client/cluster/batch.go")
+			fn := c19Method(ff, "Batch", "Exec")
+			w, e, c := c19ExecShape(fs, fn, true)
+			emit("execWaitsAll", "Batch.Exec: every node batch is started, then a loop over the node batches receives from each `.done`, and only after it the loop over the index reads results (no return in between)", w)
+			emit("execReportsBatchErr", "Batch.Exec: the loop over the index returns a node batch's error (non-nil) - the first in Put order", e)
+			emit("execChecksReplies", "Batch.Exec: `if err := common.CheckRepliesError(replies); err != nil { return nil, err }` after the index loop", c)
+			fs2, ff2 := parseFile("pkg/redis/client/cluster/batch_pipe.go")
+			w2, e2, c2 := c19ExecShape(fs2, c19Method(ff2, "batch2", "Receive"), true)
+			emit("receiveWaitsAll", "batch2.Receive: the same shape (a goroutine per node batch, wait for every `.done`, then the index loop)", w2)
+			emit("receiveReportsBatchErr", "batch2.Receive: the index loop returns a node batch's error", e2)
+			emit("receiveChecksReplies", "batch2.Receive: CheckRepliesError of the collected replies is returned", c2)
+			emit("dispatchStopsAtFirstSubmitError", "batch2.Dispatch: ONE loop over bat.batches submits the node batches in order; a failing Submit returns its error at once (a prefix was submitted)", c19DispatchShape(fs2, c19Method(ff2, "batch2", "Dispatch")))
+			fs3, ff3 := parseFile("syncer/output.go")
+			chk := false
+			for _, d := range ff3.Decls {
+				if fd, ok := d.(*ast.FuncDecl); ok && fd.Name.Name == "sendCmdsBatch" {
+					if once := c19Closure(fd, "sendFuncOnce"); once != nil {
+						chk = c19OnceChecksPutErr(fs3, once)
+					}
+				}
+			}
+			emit("onceChecksPutErr", "syncer/output.go sendFuncOnce: the error of a refused Put is remembered and the empty-batcher shortcut `if batcher.Len() == 0` returns it (non-nil) before it can return nil", chk)
+		}
+		sb.WriteString("end GunYu.Gen.C19Guards\n")
+		writeIfChanged(filepath.Join(*out, "C19Guards.lean"), sb.String())
+	}
 	fset, f := parseFile("syncer/output.go")
 	for _, d := range f.Decls {
 		fn, ok := d.(*ast.FuncDecl)
@@ -122,6 +357,13 @@ func genC19() {
 				die("the position split of sendFuncOnce not found")
 			}
 			facts["c19_positionSplit"] = c17Print(fset, sp)
+			// session 5 (510c7bb): the empty-batcher shortcut of sendFuncOnce reports a recorded Put error
+			// (ClusterFlush.once, chk = true)
+			ef := c19IfMentioning(fset, once, "batcher.Len()", "== 0")
+			if ef == nil {
+				die("the empty-batcher shortcut of sendFuncOnce not found")
+			}
+			facts["c19_emptyFlush"] = c17Print(fset, ef)
 		case "NewRedisOutput":
 			fb := c19IfMentioning(fset, fn, "CanTransaction", "IsCluster")
 			if fb == nil {
